@@ -320,6 +320,11 @@ func MethodParams(o ReqOpts, crit model.Criteria) map[string]interface{} {
 // Request builds a decision request for the given options; every number is symbolic.
 func Request(o ReqOpts) *model.DecisionMaker {
 	crit := Criteria(o)
+	if len(crit) >= 2 {
+		// criteria are declared out of id order (c2, c1, ...), as choseToMake lists alternatives out of id order:
+		// code that sorts a shared slice or map key in place only shows on unsorted input
+		crit[0], crit[1] = crit[1], crit[0]
+	}
 	known := vh.Alternatives(o.Prefix, vh.AltIds[:o.A], crit)
 	if o.Values != 0 {
 		for i := range known {
